@@ -789,6 +789,10 @@ func checkActiveHosts(p *an.Prog, r *an.Run, d *types.Named, m *ssa.Function, ex
 			bad = append(bad, "the limit is not honoured (result never truncated to limit)")
 		}
 	}
+	if kind == "badger" {
+		dec, _ := freshDecodeViolations(p, func(fn *ssa.Function) bool { return isNested(fn, m) })
+		bad = append(bad, dec...)
+	}
 	r.Check(len(bad) == 0, "driver-filters", kind, m.Pos(), "result fenced by IsHost, kind (unless empty query), LastSeen > now-ExpireInterval; limit honoured (0 = unlimited)", "%s", strings.Join(dedup(bad), "; "))
 }
 
